@@ -4,6 +4,7 @@ from symx.api import And, Iff, Implies, Instance, Ite, Not, Or
 META = {
     "bounds": {
         "grid": "3x3, 1x1, 2x2 (quick); plus 1x3, 4x2, 2x4 (thorough); cells hold distinct tokens",
+        "resize": "from an arbitrary valid state with 0 or 2 scroll-back lines of length 1 or maxw+1 each (lines that scrolled off at another width) to every size up to maxw x maxh",
         "state": "inductive step from an arbitrary valid state: cursor anywhere in the grid, any scrolling region, modes as symbolic Booleans, pending-wrap flag, "
                  "saved cursor, scroll-back view offset; all enumerated through the solver (indices are concretised by the list operations of the code)",
         "csi parameters": "0 .. max(w, h) + 2 per parameter (loops in insert_chars etc. run `n` times); 0-3 parameters",
@@ -234,8 +235,25 @@ def h_resize(I, w, h, maxw, maxh):
     tc.has_focus = I.bool("has_focus")
     nw = int(I.int("new_w", 1, maxw))
     nh = int(I.int("new_h", 1, maxh))
+    # lines that scrolled off while the terminal had another width are still in the scroll-back buffer
+    nsb = I.choice("scrollback_lines", [0, 2])
+    sb_lines = []
+    for k in range(nsb):
+        n = I.choice("scrollback_len%d" % k, [1, maxw + 1])
+        line = [(None, None, bytes([65 + k])) for _ in range(n)]
+        sb_lines.append(list(line))
+        tc.scrollback_buffer.append(line)
+    old_rows = [[c[2] for c in r] for r in tc.term]
     tc.resize(nw, nh)
     _invariant(I, tc, nw, nh)
+    I.check("rows_have_the_new_width", all(len(r) == nw for r in tc.term) and len(tc.term) == nh)
+    pulled = min(max(nh - h, 0), nsb)
+    if pulled:
+        # the most recent scroll-back lines come back on top, cut or padded to the new width
+        back = sb_lines[nsb - pulled:]
+        got = [[c[2] for c in r] for r in tc.term[:pulled]]
+        exp = [([c[2] for c in ln] + [b" "] * nw)[:nw] for ln in back]
+        I.check("scrollback_lines_return_in_order", got == exp, info=(got, exp))
     tc.addstr(b"x\n\ry")
     _invariant(I, tc, nw, nh, "_after_output")
 
